@@ -183,15 +183,15 @@ def run(ctx):
     for f, ls in rank_lambdas("KillSwapUsage"):
         texts = []
         for l in ls:
-            texts.append([ret_text(l, r) for r in returns(l)])
+            texts.append([l.text(v) for _r, v in return_leaves(l)])
         flt = [t for t in texts if t == ["(cgroup_ctx.swap_usage(nullptr).value_or(0) > this->threshold_)"]]
         key = [t for t in texts if sorted(t) == sorted(["this->getSwapExcess(cgroup_ctx)", "cgroup_ctx.swap_usage(nullptr).value_or(0)"])]
         ctx.check(len(flt) == 1, "eligibility:kill_by_swap_usage", "value-shape", f.loc(), "only cgroups with swap usage strictly above the threshold are eligible", "filters are " + str(texts))
         ctx.check(len(key) == 1, "metric:kill_by_swap_usage", "value-shape", f.loc(), "ranks by swap usage, or by the swap excess when biased", "keys are " + str(texts))
         for l in ls:
             fl = Flow(P, l, cg=cg)
-            for r in returns(l):
-                if "getSwapExcess" in ret_text(l, r):
+            for _r, r in return_leaves(l):
+                if "getSwapExcess" in l.text(r):
                     ctx.check(has_fact(fl.guards(r), True, "this->biasedSwapKill_"), "metric:swap-excess-only-when-biased", "guarded_by", l.loc(r), "the excess is the key only with biased_swap_kill", "excess used without biased_swap_kill")
         X = Expander(P, f)
         for r in returns(f):
